@@ -308,6 +308,11 @@ def _build():
     SK["arguments"] = [(f * ua * va, 2, 2), (ua * va, 2, 2), (grad(ua)[0] * va, 2, 2), (apply_algebra_lowering(dot(pa, qa)), 2, 2),
                        (va, 2, 2), (f * va + g * g * va, 2, 2), (ta[0] * f, 2, 2), (ta[1] * f, 2, 2), (ta[0] * ta[1], 2, 2),
                        (apply_algebra_lowering(dot(ta, ta)), 2, 2)]
+    # hand-built list tensors of components that cross sub-element boundaries, in both orders (round 4, second change)
+    SK["list_of_components"] = [(as_vector([w[0], w[2]])[0] * w[3], 2, 2), (as_vector([w[2], w[0]])[1] * w[3], 2, 2),
+                                (as_vector([w[3], w[2], w[0]])[2], 2, 2), (inner(as_vector([w[2], w[3]]), as_vector([w[3], w[0]])), 2, 2),
+                                (as_vector([w[0], w[2]]), 2, 2), (as_vector([w[3], w[1]]), 2, 2), (as_vector([w[2], w[3], w[1]]), 2, 2),
+                                (as_vector([w[1] * w[2], w[3]]), 2, 2), (as_vector([grad(w)[2, 0], w[0]]), 2, 2)]
     # --- round 4: wrappers, unlowered compound operators, piecewise nodes, tensor-product cells, P_m geometry
     vf = Coefficient(FunctionSpace(dom, E("Ewv", triangle, 2, (2,))), count=21)
     vg = Coefficient(FunctionSpace(dom, E("Eww", triangle, 2, (2,))), count=22)
@@ -509,6 +514,15 @@ def nested_mixed(p: int, q: int, r: int) -> int:
     return _worst("nested_mixed")
 
 
+def list_of_components(p: int, q: int, r: int) -> int:
+    """
+    pre: 0 <= p <= 4 and 0 <= q <= 4 and 0 <= r <= 4
+    post: _ >= 0
+    """
+    _set(Ev=p, Ep=q, Eq=r)
+    return _worst("list_of_components")
+
+
 def wrappers(p: int, q: int, r: int) -> int:
     """
     pre: 0 <= p <= 4 and 0 <= q <= 4 and 0 <= r <= 4
@@ -566,6 +580,6 @@ def scalar_poly_twin(p: int, q: int) -> int:
 # warm up global state (handler tables, flyweights) so every CrossHair path sees the same state
 for _f, _a in ((scalar_poly_n0, (1, 2)), (mixed_components_k0, (1, 2, 3)), (symmetric_components, (1, 2, 3)),
                (symmetric_in_mixed, (1, 2)), (mixed_first_symmetric_last, (1, 2)), (piola_on_manifold, (1, 2)),
-               (enriched_sub_element, (2, 1, 1)), (nested_mixed, (1, 2, 3)), (wrappers, (1, 2, 3)), (compound, (1, 2, 3)),
+               (enriched_sub_element, (2, 1, 1)), (nested_mixed, (1, 2, 3)), (wrappers, (1, 2, 3)), (compound, (1, 2, 3)), (list_of_components, (1, 2, 3)),
                (piecewise, (1, 2)), (quadrilateral_cells, (1, 2, 3)), (curved_geometry, (2, 1))):
     _f(*_a)
